@@ -666,7 +666,8 @@ func c12RealPath(e *env) error {
 // converter, naming the command line — lines after it are never silently dropped.
 func c12RealMixed(e *env) error {
 	root := filepath.Join(e.scratch, "c12mixed")
-	tree := scratch.Tree{"go.mod": "module example.org/c12m\n\ngo 1.18\n",
+	// (module path chosen so that the package is c12Pkg, the package the model resolves relative patterns against)
+	tree := scratch.Tree{"go.mod": "module example.org\n\ngo 1.18\n",
 		"p/types.go": "package p\n\ntype In struct{ A int }\ntype Out struct{ A int }\n",
 		"p/iface.go": "package p\n\n// goverter:converter\ntype Converter interface {\n\tM(source In) Out\n}\n",
 		"p/vars.go":  "package p\n\n// goverter:variables\nvar (\n\tV func(source In) Out\n)\n",
@@ -707,6 +708,19 @@ func c12RealMixed(e *env) error {
 			}
 		}
 		if hasLoaderLine(&settingsCase{CLI: cli}) {
+			continue
+		}
+		// a context pattern that matches the method's only parameter (`source`) turns it into a context: the method then has no
+		// source, which is a SIGNATURE diagnostic (C14) outside what the settings model resolves
+		swallows := false
+		for _, l := range cli {
+			if strings.HasPrefix(l, "arg:context:regex ") {
+				if re, err := regexp.Compile(strings.TrimSpace(strings.TrimPrefix(l, "arg:context:regex "))); err == nil && re.MatchString("source") {
+					swallows = true
+				}
+			}
+		}
+		if swallows {
 			continue
 		}
 		clis = append(clis, cli)
